@@ -18,13 +18,13 @@ class Unsupported(Exception):
     pass
 
 
-def enc_val(v):
+def enc_val(v, floats=False):
     if v is None or isinstance(v, (bool, str)):
         return v
     if isinstance(v, int):
         return v
-    if isinstance(v, float):
-        return v        # (times finer than the integers of the model: implementation-only cases)
+    if floats and isinstance(v, float):
+        return v        # (times finer than the integers of the model, in observations of implementation-only cases)
     if isinstance(v, Event):
         return enc_event(v)
     if isinstance(v, list):
@@ -38,7 +38,7 @@ def enc_val(v):
 def enc_event(e):
     if e is None:
         return None
-    return {'ev': e.name, 'data': [[k, enc_val(v)] for k, v in e.data.items()]}
+    return {'ev': e.name, 'data': [[k, enc_val(v, floats=True)] for k, v in e.data.items()]}
 
 
 def enc_expr(n):
